@@ -87,6 +87,9 @@ func (c *Cluster) RowCells(table string, row []byte) []Cell {
 	return td.rows[string(row)].sorted()
 }
 
+// Hash32 is the hash the simulator uses for per-operation choices.
+func Hash32(s string) uint32 { return hash32(s) }
+
 func hash32(s string) uint32 {
 	h := fnv.New32a()
 	h.Write([]byte(s))
@@ -108,6 +111,10 @@ func (c *Cluster) handle(req *Request) *Reply {
 	if f := c.OnRequest; f != nil {
 		if rep := f(req); rep != nil {
 			c.Log.Add(Event{Kind: "fault", Server: req.Server, Conn: req.Conn.ID, CallID: req.CallID, Method: req.Method, Info: "on-request " + rep.describe()})
+			if rep.DefaultThenKill {
+				c.handleDefault(req)
+				return &Reply{Drop: true, KillConn: true}
+			}
 			if rep.HoldDefault != nil {
 				d := c.handleDefault(req)
 				if d != nil {
@@ -153,6 +160,8 @@ func (r *Reply) describe() string {
 		return fmt.Sprintf("raw %d bytes", len(r.Raw))
 	case r.HoldDefault != nil:
 		return "hold-reply"
+	case r.DefaultThenKill:
+		return "execute-then-kill-conn"
 	}
 	return "custom"
 }
@@ -379,8 +388,10 @@ func (c *Cluster) handleMulti(req *Request) *Reply {
 		resp.RegionActionResult = append(resp.RegionActionResult, rar)
 		if f := c.OnRegionAction; f != nil {
 			if e := f(req, ra.Region); e != nil {
-				c.Log.Add(Event{Kind: "exec-fault", Server: req.Server, Conn: req.Conn.ID, CallID: req.CallID, Method: "Multi",
-					Region: string(ra.Region), Info: "region-level " + e.Class, N: int64(len(ra.Actions))})
+				for _, a := range ra.Actions {
+					c.Log.Add(Event{Kind: "exec-fault", Server: req.Server, Conn: req.Conn.ID, CallID: req.CallID, Method: "Multi",
+						Region: string(ra.Region), Row: a.Row, OpID: a.OpID, Index: a.Index, Info: "region-level " + e.Class})
+				}
 				rar.Exception = excPair(e)
 				continue
 			}
